@@ -191,6 +191,13 @@ def _with_hashtype_bit(script, witness, which, bit):
     return script.replace(blob, new, 1), tuple(witness)
 
 
+def _special_outpoint(h, x, which):
+    """an outpoint field replaced by a value with a meaning of its own: the all-zero / all-ones hash, index 0 / 2^32-1,
+    and the null outpoint (zero hash, index 2^32-1: what a coinbase carries)"""
+    Z, F = b"\0" * 32, b"\xff" * 32
+    return [(Z, x), (F, x), (h, 0xffffffff), (h, 0), (Z, 0xffffffff), (Z, 0), (h[::-1], x)][which % 7]
+
+
 def mutate(model, mut):
     """pure: returns (new model, label) ; label 'nop' when the mutation does not apply to this transaction"""
     m = copy.deepcopy(model)
@@ -207,6 +214,10 @@ def mutate(model, mut):
         i["prev_hash"] = flip(i["prev_hash"], (mut[2] // 8) % 32, mut[2])
     elif kind == "prev_index":
         ins[mut[1] % n_in]["prev_index"] ^= 1 << (mut[2] % 32)
+    elif kind == "outpoint_set":
+        i = ins[mut[1] % n_in]
+        h, x = _special_outpoint(i["prev_hash"], i["prev_index"], mut[2])
+        i["prev_hash"], i["prev_index"] = h, x
     elif kind == "sequence":
         ins[mut[1] % n_in]["sequence"] ^= 1 << (mut[2] % 32)
     elif kind == "out_value":
@@ -414,7 +425,12 @@ class Signed:
             labels.append("must-stay-valid" if exp else "must-fail")
             labels.append("why=" + why)
         cnt = tx.bad_solution_count()
-        if cnt != n_bad:
+        # pycoin's documented convention: a transaction whose single input has the all-zero previous hash is a coinbase,
+        # which spends nothing, and its count of bad solutions is 0.  With no spent output recorded for it there is nothing
+        # to validate: the count is not judged (is_solution_ok above still is: it must be False).
+        if n == 1 and model["ins"][0]["prev_hash"] == b"\0" * 32 and not known_unspent(model, 0):
+            labels.append("coinbase-shaped:count-not-judged")
+        elif cnt != n_bad:
             _bad("tamper:bad_solution_count", "%s after %s: bad_solution_count() = %d, expected %d" % (self.B.coin, what, cnt, n_bad))
         if fresh is not None and fresh.bad_solution_count() != cnt:
             _bad("tamper:long-lived-object-differs-from-fresh", "%s after %s: bad_solution_count %d vs fresh %d" % (
@@ -447,7 +463,7 @@ def full_catalogue(model, seed):
                  ["spent_script", j, nxt(200), nxt(8)], ["spent_script_reencode", j], ["remove_in", j], ["unspents", "none", j], ["unspents", "short", j]]
         muts += [["swap_in", j, b] for b in range(j + 1, n_in)]
         muts += [["swap_unlock", j, b] for b in range(j + 1, n_in)]
-        muts += [["dummy", j, nxt(8)]]
+        muts += [["dummy", j, nxt(8)], ["outpoint_set", j, 4], ["outpoint_set", j, nxt(7)]]
         muts += [["sig_hashtype", j, s, b] for s in range(3) for b in (5, nxt(8))]
     for o in range(n_out):
         muts += [["out_value", o, nxt(51)], ["out_script", o, nxt(40), nxt(8)], ["remove_out", o]]
@@ -489,6 +505,7 @@ def s_mutation():
         st.tuples(st.just("prev_hash"), j, st.integers(0, 255)),
         st.tuples(st.just("prev_index"), j, bit32),
         st.tuples(st.just("sequence"), j, bit32),
+        st.tuples(st.just("outpoint_set"), j, st.integers(0, 6)),
         st.tuples(st.just("out_value"), j, st.integers(0, 50)),
         st.tuples(st.just("out_script"), j, st.integers(0, 40), st.integers(0, 7)),
         st.tuples(st.just("insert_out"), j, st.integers(0, 999)),
@@ -542,6 +559,14 @@ def apply_live(tx, T, model_before, mut):
         new = flip(old, (mut[2] // 8) % 32, mut[2]) if kind == "prev_hash" else old ^ (1 << (mut[2] % 32))
         setattr(ti, attr, new)
         return lambda: setattr(ti, attr, old)
+    if kind == "outpoint_set":
+        ti = ins[mut[1] % n_in]
+        old = (ti.previous_hash, ti.previous_index)
+        ti.previous_hash, ti.previous_index = _special_outpoint(old[0], old[1], mut[2])
+
+        def undo():
+            ti.previous_hash, ti.previous_index = old
+        return undo
     if kind == "out_value":
         to = outs[mut[1] % n_out]
         old = to.coin_value
@@ -736,7 +761,8 @@ def _probe_other_objects(T, tx, labels):
                 for src, dst in zip(tx.txs_in, other.txs_in):
                     dst.witness = list(src.witness)
             got = [other.is_solution_ok(i) for i in range(len(other.txs_in))]
-            if any(got) or other.bad_solution_count() != len(other.txs_in):
+            coinbase_shaped = len(other.txs_in) == 1 and other.txs_in[0].previous_hash == b"\0" * 32
+            if any(got) or (other.bad_solution_count() != len(other.txs_in) and not coinbase_shaped):
                 _bad("tamper:unknown-spent-output-reported-valid", "an object made by %s from the same bytes, never told any spent output, "
                      "reports is_solution_ok=%r bad_solution_count=%d" % (how, got, other.bad_solution_count()))
         labels.append("other-objects-probed")
